@@ -1,1 +1,174 @@
-From OV Require Import Model.ParseX86.
+(* C09 -- x86 AT&T parser recovers every line and operand exactly as written.
+   Property theorems over the executable model Model/ParseX86.v + Model/ParseFileX86.v (tied to
+   osaca/parser/parser_x86att.py and base_parser.py by the differential harness of checks/c09.py).
+   Sub-language: Model/SubLangX86.v (valid_instr, valid_layout, ...). *)
+From Coq Require Import String Ascii List Bool NArith ZArith.
+From OV Require Import Model.ParseX86 Model.ParseFileX86 Model.SubLangX86
+                       Proofs.ParseX86Line Proofs.ParseFileX86.
+Import ListNotations.
+Open Scope string_scope.
+
+(* ------------------------------------------------------------------------------------------------
+   Round trip: for ALL instruction ASTs of the sub-language (a letter-initial alphanumeric mnemonic,
+   0-4 operands: any %alphanumeric register, any integer immediate, $label / label, memory
+   disp(base,index,scale) in the 7 writable presence combinations, scales 1 2 4 8) and ALL layouts
+   (any blanks before the mnemonic, around commas, inside the parentheses, before the end; hexadecimal
+   (either case) or decimal spelling of every integer; scale 1 written or omitted; optional trailing
+   "#"/"//" comment of printable text), the parser returns exactly the AST. *)
+Theorem parse_render_instr : forall lay a,
+  valid_instr a = true -> valid_layout lay = true ->
+  parse_line (render_line lay a) = Parsed (PInstr (fst a) (snd a)).
+Proof. exact roundtrip_proof. Qed.
+Print Assumptions parse_render_instr.
+
+(* "regardless of surrounding whitespace, tabs, separators' spacing, hex or decimal, trailing comment" *)
+Corollary layout_irrelevant : forall lay1 lay2 a,
+  valid_instr a = true -> valid_layout lay1 = true -> valid_layout lay2 = true ->
+  parse_line (render_line lay1 a) = parse_line (render_line lay2 a).
+Proof. intros. rewrite !parse_render_instr by assumption. reflexivity. Qed.
+Print Assumptions layout_irrelevant.
+
+(* ------------------------------------------------------------------------------------------------ other kinds *)
+Theorem classify_comment_line : forall lead slashes text,
+  blanks lead = true -> allc is_textc text = true ->
+  parse_line (render_comment_line lead slashes text) = Parsed PComment.
+Proof. exact comment_line_proof. Qed.
+Print Assumptions classify_comment_line.
+
+Theorem classify_label_line : forall lead name w1 w2 c,
+  blanks lead = true -> valid_label name = true -> blanks w1 = true -> blanks w2 = true -> valid_comment c = true ->
+  parse_line (render_label_line lead name w1 w2 c) = Parsed (PLabel name).
+Proof. exact label_line_proof. Qed.
+Print Assumptions classify_label_line.
+
+Theorem classify_numeric_label_line : forall lead name w1 w2 c,
+  blanks lead = true -> valid_numlabel name = true -> blanks w1 = true -> blanks w2 = true -> valid_comment c = true ->
+  parse_line (render_label_line lead name w1 w2 c) = Parsed (PLabel name).
+Proof. exact numeric_label_line_proof. Qed.
+Print Assumptions classify_numeric_label_line.
+
+Theorem classify_directive_line : forall lead name rest,
+  blanks lead = true -> valid_dirname name = true -> valid_dirrest rest = true ->
+  parse_line (render_directive_line lead name rest) = Parsed (PDirective name).
+Proof. exact directive_line_proof. Qed.
+Print Assumptions classify_directive_line.
+
+(* a parsed line is exactly one of comment / label / directive / instruction *)
+Theorem classify_exclusive : forall s p, parse_line s = Parsed p ->
+  let o := parse_line s in
+  (kind_comment o /\ ~ kind_label o /\ ~ kind_directive o /\ ~ kind_instruction o)
+  \/ (~ kind_comment o /\ kind_label o /\ ~ kind_directive o /\ ~ kind_instruction o)
+  \/ (~ kind_comment o /\ ~ kind_label o /\ kind_directive o /\ ~ kind_instruction o)
+  \/ (~ kind_comment o /\ ~ kind_label o /\ ~ kind_directive o /\ kind_instruction o).
+Proof. exact classify_exclusive_proof. Qed.
+Print Assumptions classify_exclusive.
+
+(* ------------------------------------------------------------------------------------------------ files *)
+(* the pieces of split("\n") really are the lines of the file *)
+Theorem file_lines_faithful : forall content,
+  S_ (join_nl (file_lines content)) = content
+  /\ Forall (fun l => forallb (fun c => negb (is_nl c)) l = true) (file_lines content).
+Proof. intro. split; [apply file_lines_join|apply split_no_nl]. Qed.
+Print Assumptions file_lines_faithful.
+
+(* line numbers = 1-based (plus start_line) positions of the non-blank lines, in order *)
+Theorem parse_file_lines : forall content start,
+  map fl_number (parse_file content start)
+  = map (fun p => p + 1 + start) (positions_from 0 (file_lines content))
+  /\ (forall p, In p (positions_from 0 (file_lines content))
+              <-> p < length (file_lines content) /\ blank (nth p (file_lines content) []) = false)
+  /\ Sorted.StronglySorted lt (positions_from 0 (file_lines content)).
+Proof.
+  intros. split; [apply parse_file_lines_proof|]. split; [intro; apply positions_in|].
+  apply positions_increasing.
+Qed.
+Print Assumptions parse_file_lines.
+
+(* verbatim text; the number of each parsed line points at its own text; it is parsed by parse_line *)
+Theorem parse_file_text : forall content start,
+  map fl_text (parse_file content start) = map S_ (filter nonblank (file_lines content))
+  /\ forall f, In f (parse_file content start) ->
+       1 + start <= fl_number f
+       /\ nth (fl_number f - 1 - start) (file_lines content) [] = L (fl_text f)
+       /\ blank (L (fl_text f)) = false
+       /\ fl_parsed f = parse_line (fl_text f).
+Proof. exact parse_file_text_proof. Qed.
+Print Assumptions parse_file_text.
+
+(* exactly one parsed line per non-blank line *)
+Theorem parse_file_count : forall content start,
+  length (parse_file content start) = length (filter nonblank (file_lines content)).
+Proof. exact parse_file_count_proof. Qed.
+Print Assumptions parse_file_count.
+
+(* ------------------------------------------------------------------------------------------------ non-vacuity *)
+Definition tab : string := String (ascii_of_nat 9) "".
+Definition lo0 := default_oplay.
+Definition lo_hexU := mkOplay true true false false "" " " tab "" " " tab "".
+Definition lo_omit := mkOplay false false true true "" "" "" " " "" "" "".
+Definition lay0 := mkLayout "" " " [] "" None.
+Definition lay1 := mkLayout tab tab [(lo_hexU, " ", ""); (lo_omit, "", tab); (lo0, tab, " ")] " " (Some (false, " LLVM-MCA x: $1,(%rax)")).
+
+(* one rendered line per operand kind; the layouts and ASTs satisfy the hypotheses *)
+Example ex_reg : render_line lay0 ("mov", [OReg "rax"; OReg "xmm31"]) = "mov %rax,%xmm31"
+  /\ valid_instr ("mov", [OReg "rax"; OReg "xmm31"]) = true /\ valid_layout lay0 = true.
+Proof. vm_compute. auto. Qed.
+Example ex_imm : render_line lay1 ("movq", [OImm (-255); OImm 18446744073709551615; OReg "R15D"])
+  = tab ++ "movq" ++ tab ++ "$-0xFF ," ++ tab ++ "$18446744073709551615, %R15D" ++ tab ++ " # LLVM-MCA x: $1,(%rax)"
+  /\ valid_instr ("movq", [OImm (-255); OImm 18446744073709551615; OReg "R15D"]) = true /\ valid_layout lay1 = true.
+Proof. vm_compute. auto. Qed.
+Example ex_imm_parsed :
+  parse_line (tab ++ "movq" ++ tab ++ "$-0xFF ," ++ tab ++ "$18446744073709551615, %R15D" ++ tab ++ " # LLVM-MCA x: $1,(%rax)")
+  = Parsed (PInstr "movq" [OImm (-255); OImm 18446744073709551615; OReg "R15D"]).
+Proof. vm_compute. reflexivity. Qed.
+Example ex_label : render_line lay0 ("jne", [OId ".L4"]) = "jne .L4"
+  /\ render_line lay1 ("movq", [OId "table+8"; OReg "rax"]) = tab ++ "movq" ++ tab ++ "table+8 ," ++ tab ++ "%rax # LLVM-MCA x: $1,(%rax)"
+  /\ render_line lay0 ("cmp", [OReg "rax"; OId "foo"]) = "cmp %rax,$foo"
+  /\ valid_instr ("jne", [OId ".L4"]) = true /\ valid_instr ("cmp", [OReg "rax"; OId "foo"]) = true.
+Proof. vm_compute. auto 6. Qed.
+(* memory: the 7 writable presence combinations of displacement / base / index *)
+Definition mems : list operand :=
+  [ OMem (DInt 4096) None None 1; OMem DNone (Some "rax") None 1; OMem DNone None (Some "rbx") 8;
+    OMem DNone (Some "rax") (Some "rbx") 1; OMem (DInt (-8)) (Some "rbp") None 1;
+    OMem (DInt 16) None (Some "r9") 4; OMem (DId "foo") (Some "rip") (Some "zmm3") 2 ].
+Example ex_mem_valid : forallb valid_operand mems = true.
+Proof. vm_compute. reflexivity. Qed.
+Example ex_mem_render :
+  map (fun o => render_line lay1 ("lea", [o])) mems =
+  map (fun s => tab ++ "lea" ++ tab ++ s ++ "  # LLVM-MCA x: $1,(%rax)")
+      [ "0x1000"; "( %rax" ++ tab ++ ")"; "( ,%rbx ," ++ tab ++ "8)"; "( %rax" ++ tab ++ ",%rbx ," ++ tab ++ "1)";
+        "-0x8( %rbp" ++ tab ++ ")"; "0x10( ,%r9 ," ++ tab ++ "4)"; "foo( %rip" ++ tab ++ ",%zmm3 ," ++ tab ++ "2)" ].
+Proof. vm_compute. reflexivity. Qed.
+(* scale 1 omitted, decimal *)
+Example ex_scale_default :
+  render_line (mkLayout "" " " [(lo_omit, "", "")] "" None) ("lea", [OMem (DInt 8) (Some "rax") (Some "rbx") 1]) = "lea 8(%rax, %rbx)"
+  /\ parse_line "lea 8(%rax, %rbx)" = Parsed (PInstr "lea" [OMem (DInt 8) (Some "rax") (Some "rbx") 1])
+  /\ parse_line "lea 0x8(%rax,%rbx,1)" = parse_line "lea 8(%rax, %rbx)".
+Proof. vm_compute. auto. Qed.
+(* every general-purpose register width and xmm/ymm/zmm 0-31 is a register of the sub-language *)
+Example ex_registers : forallb valid_reg ["rax"; "eax"; "ax"; "al"; "ah"; "rbx"; "ebx"; "bx"; "bl"; "bh"; "rcx"; "ecx"; "cx"; "cl"; "ch"; "rdx"; "edx"; "dx"; "dl"; "dh"; "rbp"; "ebp"; "bp"; "bpl"; "rsp"; "esp"; "sp"; "spl"; "rsi"; "esi"; "si"; "sil"; "rdi"; "edi"; "di"; "dil"; "r8"; "r8d"; "r8w"; "r8b"; "r9"; "r9d"; "r9w"; "r9b"; "r10"; "r10d"; "r10w"; "r10b"; "r11"; "r11d"; "r11w"; "r11b"; "r12"; "r12d"; "r12w"; "r12b"; "r13"; "r13d"; "r13w"; "r13b"; "r14"; "r14d"; "r14w"; "r14b"; "r15"; "r15d"; "r15w"; "r15b"; "rip"; "eip"; "xmm0"; "xmm1"; "xmm2"; "xmm3"; "xmm4"; "xmm5"; "xmm6"; "xmm7"; "xmm8"; "xmm9"; "xmm10"; "xmm11"; "xmm12"; "xmm13"; "xmm14"; "xmm15"; "xmm16"; "xmm17"; "xmm18"; "xmm19"; "xmm20"; "xmm21"; "xmm22"; "xmm23"; "xmm24"; "xmm25"; "xmm26"; "xmm27"; "xmm28"; "xmm29"; "xmm30"; "xmm31"; "ymm0"; "ymm1"; "ymm2"; "ymm3"; "ymm4"; "ymm5"; "ymm6"; "ymm7"; "ymm8"; "ymm9"; "ymm10"; "ymm11"; "ymm12"; "ymm13"; "ymm14"; "ymm15"; "ymm16"; "ymm17"; "ymm18"; "ymm19"; "ymm20"; "ymm21"; "ymm22"; "ymm23"; "ymm24"; "ymm25"; "ymm26"; "ymm27"; "ymm28"; "ymm29"; "ymm30"; "ymm31"; "zmm0"; "zmm1"; "zmm2"; "zmm3"; "zmm4"; "zmm5"; "zmm6"; "zmm7"; "zmm8"; "zmm9"; "zmm10"; "zmm11"; "zmm12"; "zmm13"; "zmm14"; "zmm15"; "zmm16"; "zmm17"; "zmm18"; "zmm19"; "zmm20"; "zmm21"; "zmm22"; "zmm23"; "zmm24"; "zmm25"; "zmm26"; "zmm27"; "zmm28"; "zmm29"; "zmm30"; "zmm31"; "RAX"; "EAX"; "AX"; "AL"; "AH"; "RBX"; "EBX"; "BX"] = true.
+Proof. vm_compute. reflexivity. Qed.
+Example ex_four_operands : valid_instr ("vfoo", [OReg "xmm1"; OImm 3; OMem DNone (Some "rax") None 1; OReg "k1"]) = true.
+Proof. vm_compute. reflexivity. Qed.
+(* other kinds, and a file *)
+Example ex_kinds :
+  parse_line " # a comment" = Parsed PComment /\ parse_line "// icc" = Parsed PComment
+  /\ parse_line ".L4:" = Parsed (PLabel ".L4") /\ parse_line "1: # x" = Parsed (PLabel "1")
+  /\ parse_line (tab ++ ".align 16") = Parsed (PDirective "align")
+  /\ valid_label ".L4" = true /\ valid_numlabel "1" = true /\ valid_dirname "align" = true /\ valid_dirrest " 16" = true.
+Proof. vm_compute. auto 10. Qed.
+Definition nl : string := String (ascii_of_nat 10) "".
+Example ex_file :
+  map (fun f => (fl_number f, fl_text f)) (parse_file ("main:" ++ nl ++ nl ++ "  " ++ tab ++ nl ++ " ret" ++ nl) 0)
+  = [(1, "main:"); (4, " ret")].
+Proof. vm_compute. reflexivity. Qed.
+(* outside the sub-language the model does not guess *)
+Example ex_unmodelled :
+  parse_line "mov %fs:8, %rax" = Unmodelled /\ parse_line "jmp *%rax" = Unmodelled
+  /\ parse_line "vaddpd %zmm1, %zmm2, %zmm3{%k1}" = Unmodelled /\ parse_line "call foo@PLT" = Unmodelled.
+Proof. vm_compute. auto. Qed.
+(* what the grammar refuses (ValueError) *)
+Example ex_reject :
+  parse_line "mov (%rax,%rbx,3), %rcx" = Reject /\ parse_line "vfoo %a, %b, %c, %d, %e" = Reject
+  /\ parse_line "movl %eax, counter" = Reject /\ parse_line "add $010, %rbx" = Reject.
+Proof. vm_compute. auto. Qed.
